@@ -15,6 +15,7 @@ from .. import fresh
 from ..formula import ToSympy, single_defs, inline
 from ..source import AnalysisError, AnchorMissing
 from .kwn import EULER, BASE, NR, MODEL
+from . import kwn as K
 from . import C02
 
 NUC = 'kawin/precipitation/parameters/Nucleation.py'
@@ -131,26 +132,7 @@ def r145(repo, ctx):
     # bulk / dislocation branch of nucleationBarrier: Rcrit = 2 f gamma / dG, Gcrit = 4 pi/3 gamma Rcrit^2
     f = repo.func(NR, 'nucleationBarrier')
     src_ = U.src(f)
-    # the statements executed when the site is not a grain-boundary type (path through the isGrainBoundaryNucleation tests)
-    def bulk_path(stmts):
-        out = []
-        for st in stmts:
-            if isinstance(st, ast.If) and 'isGrainBoundaryNucleation' in U.src(st.test):
-                t = st.test
-                neg = isinstance(t, ast.UnaryOp) and isinstance(t.op, ast.Not)
-                out += bulk_path(st.body if neg else st.orelse)
-            else:
-                out.append(st)
-        return out
-    stores = {}
-    defs = {}
-    for st in bulk_path(f.body):
-        if isinstance(st, ast.Assign) and isinstance(st.targets[0], ast.Name):
-            nm = st.targets[0].id
-            if nm not in U.names_in(st.value) and nm not in ('volumeDrivingForce', 'indices', 'Rcrit', 'Gcrit', 'Rmin'):
-                defs[nm] = st.value
-        if isinstance(st, ast.Assign) and isinstance(st.targets[0], ast.Subscript) and isinstance(st.targets[0].value, ast.Name):
-            stores[st.targets[0].value.id] = (st, defs.copy())
+    stores = K.nongb_stores(f)
     fsym, g2 = sp.symbols('f gamma', positive=True)
 
     def atoms2(e):
@@ -165,19 +147,12 @@ def r145(repo, ctx):
         return None
     ok_r = ok_g = False
     try:
-        if 'Rcrit' in stores:
-            st, defs = stores['Rcrit']
-            v = st.value
-            # Rcrit[indices] = np.amax([proposal, Rmin[indices]], axis=0)
-            if isinstance(v, ast.Call) and U.call_name(v) in ('np.amax', 'np.maximum') and v.args:
-                elts = v.args[0].elts if isinstance(v.args[0], (ast.List, ast.Tuple)) else v.args
-                prop = [inline(e, defs) for e in elts if 'Rmin' not in U.src(e)]
-                has_min = any('Rmin' in U.src(e) for e in elts)
-                if len(prop) == 1 and has_min:
-                    ok_r = sp.simplify(ToSympy(atoms=atoms2).tr(prop[0]) - 2 * fsym * g2 / dG) == 0
+        prop_e, prop_st, has_min = K.bulk_rcrit_proposal(f)
+        if prop_e is not None and has_min:
+            ok_r = sp.simplify(ToSympy(atoms=atoms2).tr(prop_e) - 2 * fsym * g2 / dG) == 0
         if 'Gcrit' in stores:
             st, defs = stores['Gcrit']
-            ok_g = sp.simplify(ToSympy(atoms=atoms2).tr(inline(st.value, defs)) - sp.Rational(4, 3) * sp.pi * g2 * R**2) == 0
+            ok_g = sp.simplify(ToSympy(atoms=atoms2).tr(K.select_nongb(inline(K.select_nongb(st.value), defs))) - sp.Rational(4, 3) * sp.pi * g2 * R**2) == 0
     except AnalysisError as e:
         ctx.undecided('R14.5', NR, 'nucleationBarrier', f, f'formula extraction failed: {e}')
     else:
@@ -218,7 +193,14 @@ def r144(repo, ctx):
             for s in stores:
                 for t in U.flat_targets(s):
                     if isinstance(t, ast.Subscript) and isinstance(t.value, ast.Name) and t.value.id == o:
-                        if not (isinstance(t.slice, ast.Name) and masks.get(t.slice.id) == op):
+                        sl = t.slice
+                        got_op = None
+                        if isinstance(sl, ast.Name):
+                            got_op = masks.get(sl.id)
+                        elif isinstance(sl, ast.Compare) and len(sl.ops) == 1 and isinstance(sl.left, ast.Name) and sl.left.id == src_name \
+                                and U.is_const(sl.comparators[0], 0):
+                            got_op = type(sl.ops[0]).__name__           # the mask written in place
+                        if got_op != op:
                             ok_store = False
             ctx.check(ok_init and ok_store and o in returned, 'R14.4', NR, fn, init[0] if init else f,
                       f'{o} starts as zeros and is written only where {src_name} {">" if op == "Gt" else "!="} 0',
